@@ -1018,6 +1018,67 @@ def public(c):
     return {k: v for k, v in c.items()}
 
 
+# failures of the oracle streams that depend on earlier calls of the same process (a result cache keyed too coarsely): every
+# call of the main / edge / verbose streams is logged in order; a failure whose case alone does NOT fail in a fresh interpreter
+# is recorded as the shortest history found that does (harness/histseq.py, histshrink.py), so that the replay is self-contained.
+HLOG = []
+
+
+def hlog(step):
+    HLOG.append(step)
+    return len(HLOG)
+
+
+def run_step(T, step):
+    c = dict(step["input"])
+    if "verbose" in step:
+        ref = impl_call(c, verbose=-1)
+        got = impl_call(c, verbose=step["verbose"])
+        return None if got == ref else f"verbose level changes the answer: {ref} vs {got}"
+    out = impl_call(c)
+    return oracle(T, c, out) or oracle_feedback(c, out)
+
+
+def run_history(steps):
+    """histseq interface: the steps one after the other in this interpreter (no cache_clear in between); complaints about the LAST"""
+    T = table(None)
+    bad = None
+    for st in steps:
+        bad = run_step(T, st)
+    return [str(bad)] if bad else []
+
+
+def localise_histories(ctx, corr):
+    from .. import histshrink
+    import json
+    done, tries = set(), {}
+    for f in list(corr.failures):
+        st = f.get("stream")
+        if st in done or "_hpos" not in f or tries.get(st, 0) >= 3:
+            continue
+        try:
+            if any(m(f) for m in KNOWN.values()):
+                continue
+        except Exception:
+            pass
+        tries[st] = tries.get(st, 0) + 1
+        steps = json.loads(json.dumps(HLOG[:f["_hpos"]]))
+        hist, complaints, ok = histshrink.shrink("c06", steps, budget=16)
+        if ok and len(hist) == 1:
+            done.add(st)
+            continue
+        corr.failures.remove(f)
+        if ok:
+            ctx.log(f"failure in stream {st} depends on earlier calls: shortest failing history found has {len(hist)} steps")
+            f["case"] = {"history": hist}
+            f["what"] = "the last call of this history is judged wrongly only after the earlier ones (state kept between calls): " + complaints[0]
+            corr.failures.insert(0, f)
+            done.add(st)
+        else:
+            f["not_reproduced_in_fresh_interpreter"] = True
+            corr.failures.append(f)
+
+
 CORPUS = [
     {"E": "co"}, {"Z": 27}, {"A": 59, "Z": 27}, {"E": "cO", "mass": "58.933195048"}, {"A": 59, "Z": 27, "E": "CO"},
     {"label": "co", "parts": {"E": "co"}}, {"label": "59co", "parts": {"A": 59, "E": "co"}},
@@ -1070,7 +1131,9 @@ def correspond(ctx):
     edge_cases = drifted + edge_cases          # corpus cases that sit on an edge come first
     terms, meta = [], []
     fb_known = 0
+    del HLOG[:]
     for k, c in enumerate(main_cases):
+        hpos = hlog({"input": public(c)})
         out = impl_call(c)
         stream = "corpus" if k < len(CORPUS) else ("wide" if c.get("wide") else "main")
         corr.count(stream)
@@ -1084,7 +1147,7 @@ def correspond(ctx):
         bad = oracle(T, c, out) or oracle_feedback(c, out)
         if bad:
             corr.failures.append({"stream": "oracle", "case": {"input": public(c)}, "what": bad, "observed": out,
-                                  "mtol_boundary": is_mtol_boundary(T, c, out), "wide_mismatch": is_wide_mismatch(T, c, out)})
+                                  "mtol_boundary": is_mtol_boundary(T, c, out), "wide_mismatch": is_wide_mismatch(T, c, out), "_hpos": hpos})
         terms.append(f"({in_term(c)}, {out_term(out)})")
         meta.append((stream, c, out))
     corr.sample({"input": public(main_cases[0]), "output": impl_call(main_cases[0])})
@@ -1123,13 +1186,14 @@ def correspond(ctx):
     eterms, emeta = [], []
     d = Decimal("1e-9")
     for c in edge_cases:
+        hpos = hlog({"input": public(c)})
         out = impl_call(c)
         corr.count("edges")
         corr.hit("edge_" + str(c.get("edge")))
         badw = oracle(T, c, out) or oracle_feedback(c, out)
         if badw:
             corr.failures.append({"stream": "edges", "case": {"input": public(c)}, "what": badw, "observed": out,
-                                  "mtol_boundary": is_mtol_boundary(T, c, out), "wide_mismatch": is_wide_mismatch(T, c, out)})
+                                  "mtol_boundary": is_mtol_boundary(T, c, out), "wide_mismatch": is_wide_mismatch(T, c, out), "_hpos": hpos})
         if c.get("mass") is None or ("parts" in c and c["parts"].get("mass") is not None):
             continue   # drifted label masses: judged by the oracle only
         lo, hi = perturbed(c, -d), perturbed(c, d)
@@ -1145,6 +1209,8 @@ def correspond(ctx):
 
     # ---- verbose stream (implementation only)
     verbose_stream(ctx, T, corr, [c for c in main_cases[:len(CORPUS)]] + ctx.rng.sample(main_cases, 60))
+    if corr.failures:
+        localise_histories(ctx, corr)
     corr.exhaustive = False
     return corr
 
@@ -1181,6 +1247,11 @@ def search(ctx, corr, reasons):
 def replay(ctx, rp):
     T = table(ctx)
     case = rp["case"]
+    if "history" in case:
+        from .. import histseq
+        got = histseq.fresh_run("c06", list(case["history"]))       # a fresh interpreter on the same implementation tree
+        return {"history_steps": len(case["history"]), "last_step": case["history"][-1], "oracle": got, "fails": bool(got),
+                "note": None if got is not None else "the history could not be run"}
     if "input" in case:
         c = case["input"]
         cache_clear()
